@@ -75,7 +75,8 @@ def sub(tier, cfg, out):
     # operand its own exact-size allocation (no harness guard: the redzone also sees over-reads), every scratch stack exactly
     # xxx_deep() octets; only memory-safety outcomes are judged here (values are C05's business)
     wl = word_level(tier, cfg)
-    json.dump({'n': len(cases), 'fns': fns, 'viol': viol, 'word': wl}, open(out, 'w'))
+    pr = pri_exact(tier)
+    json.dump({'n': len(cases), 'fns': fns, 'viol': viol, 'word': wl, 'pri': pr}, open(out, 'w'))
     return 0
 
 class _Collector:
@@ -108,6 +109,79 @@ def word_level(tier, cfg, classes=MEMCLASS):
             out.append({'key': 'word:' + key, 'rec': rec, 'msg': msg})
     p = col.parts.get('catalogue_calls', {})
     return {'viol': out, 'calls': int(p.get('evaluations', 0)), 'cells': int(p.get('cells', 0)), 'functions': int(p.get('functions', 0)), 'caps': col.caps}
+
+# ------------------------------------------------------------------------------------------------ pri.h with exact stacks
+# The prime-number layer is not in the C05 catalogue (its values are C12's business) but every function of pri.h takes a caller stack of
+# xxx_deep() octets: each is called here with operands of 1..NMAX words in the classes that select its internal sizes (value filling all
+# n words -- 2q + 1 then needs n + 1 words --, top word 1, one-word value in n words) on a stack that is its own exact-size allocation.
+PRI_FNS = ('priIsSieved', 'priIsSmooth', 'priIsPrimeW', 'priRMTest', 'priIsPrime', 'priIsSGPrime', 'priNextPrimeW', 'priNextPrime', 'priExtendPrime', 'priBaseMod')
+def pri_values(n, W):
+    import pri as RPRI
+    B = 1 << (8 * W)
+    top = B ** n
+    pr = top - 1
+    while not RPRI.is_prime(pr):
+        pr -= 2
+    vals = {'all-ones': top - 1, 'largest-prime': pr, 'top-word-1': B ** (n - 1) + 1 if n > 1 else 3, 'one-word': 65537, 'filler': (int.from_bytes(vf.filler('pri%d' % n, n * W), 'little') | 1 | (top >> 1))}
+    return vals
+
+def pri_items(tier):
+    nmax = 4 if tier == 'quick' else 9
+    out = []
+    for f in PRI_FNS:
+        if f in ('priIsPrimeW', 'priNextPrimeW'):
+            out += [(f, 1, c) for c in ('all-ones', 'largest-prime', 'one-word')]
+            continue
+        for n in range(1, nmax + 1):
+            for c in ('all-ones', 'largest-prime', 'top-word-1', 'one-word', 'filler'):
+                out.append((f, n, c))
+    return out
+
+def pri_case(item):
+    f, n, cls = item
+    L = common.lib(_cfg)
+    W = L.wbytes
+    v = pri_values(n, W)[cls]
+    bc = min(L.sz('priBaseSize'), 20 + 7 * n)
+    with vf.Arena(L) as A:
+        a = A.buf(v.to_bytes(n * W, 'little'))
+        if f == 'priBaseMod':
+            L.call(f, A.buf(bc * W), a, n, bc)
+        elif f == 'priIsSieved':
+            L.call(f, a, n, bc, A.buf(L.sz('priIsSieved_deep', bc)))
+        elif f == 'priIsSmooth':
+            L.call(f, a, n, bc, A.buf(L.sz('priIsSmooth_deep', n)))
+        elif f == 'priIsPrimeW':
+            L.call(f, v % (1 << (8 * W)), A.buf(L.sz('priIsPrimeW_deep')))
+        elif f == 'priNextPrimeW':
+            L.call(f, A.buf(W), v % (1 << (8 * W)), A.buf(L.sz('priNextPrimeW_deep')))
+        elif f == 'priRMTest':
+            L.call(f, a, n, 3, A.buf(L.sz('priRMTest_deep', n)))
+        elif f == 'priIsPrime':
+            L.call(f, a, n, A.buf(L.sz('priIsPrime_deep', n)))
+        elif f == 'priIsSGPrime':
+            L.call(f, a, n, A.buf(L.sz('priIsSGPrime_deep', n)))
+        elif f == 'priNextPrime':
+            L.call(f, A.buf(n * W), a, n, 4, bc, 2, A.buf(L.sz('priNextPrime_deep', n, bc)))
+        elif f == 'priExtendPrime':
+            if v.bit_length() <= 8 * W * (n - 1):
+                return None              # \pre q[n - 1] != 0
+            lb = v.bit_length()
+            for l in sorted({lb + 1, 2 * lb, lb + lb // 2}):
+                gen, gst, _ = vf.make_tape(A, vf.filler('ext%d' % l, 4 * ((l + 7) // 8)))
+                L.call(f, A.buf(((l + 8 * W - 1) // (8 * W)) * W), l, a, n, 3, bc, gen, gst, A.buf(L.sz('priExtendPrime_deep', l, n, bc)))
+    return None
+
+def pri_exact(tier):
+    items = pri_items(tier)
+    res = vf.pmap(pri_case, items, case_timeout=300)
+    viol = []
+    for it, r in zip(items, res):
+        if isinstance(r, dict):
+            key, msg = classify(r.get('stderr', '') or r.get('harness_error', '') or r.get('crash', ''))
+            viol.append({'key': 'pri:%s:%s' % (key, it[0]), 'rec': {'cfg': _cfg, 'kind': 'pri', 'item': list(it)},
+                         'msg': '%s(n = %d words, value class %s) on a stack of exactly %s_deep() octets: %s [cfg %s]' % (it[0], it[1], it[2], it[0], msg, _cfg)})
+    return {'viol': viol, 'calls': len(items)}
 
 CHEAP_GROUPS = ('belt', 'misc', 'codec', 'core', 'util', 'bash', 'brng', 'botp')
 def case_shape(c):
@@ -164,6 +238,11 @@ def run(tier):
                  functions=len(d['fns']))
         for f in d['fns']:
             chk.outcome(f)
+        pr = d.get('pri')
+        if pr:
+            for v in pr['viol']:
+                chk.violation(v['key'], v['rec'], v['msg'])
+            chk.part('pri_exact_stacks_' + cfg, states=pr['calls'], transitions=pr['calls'], traces_validated_against_impl=pr['calls'], evaluations=pr['calls'])
         w = d.get('word')
         if w:
             for v in w['viol']:
@@ -195,6 +274,11 @@ def replay(rec):
         if isinstance(r, dict):
             return classify(r.get('stderr', '') or r.get('crash', ''))[1]
         return r
+    if rec.get('kind') == 'pri':
+        r = vf.pmap(pri_case, [tuple(rec['item'])], nproc=1, case_timeout=300)[0]
+        if isinstance(r, dict):
+            return classify(r.get('stderr', '') or r.get('crash', ''))[1]
+        return None
     if rec.get('kind') != 'case':
         return None
     # run in a child so that a sanitizer abort is observed, not suffered
